@@ -8,6 +8,28 @@ pub fn unhex(s: &str) -> Vec<u8> { (0..s.len() / 2).map(|i| u8::from_str_radix(&
 /// operation arguments are written x<hex of utf-8>
 pub fn tok(t: &str) -> String { String::from_utf8(unhex(&t[1..])).unwrap() }
 
+/// A policy written as "@<prefix notation>" is BUILT with the enum constructors instead of being parsed:
+///   B = Broadcast ; T,<dim hex>,<name hex> = Term ; A,<x>,<y> = Conjunction ; O,<x>,<y> = Disjunction
+/// (the parser and the & / | operators never produce a Broadcast below a Conjunction / Disjunction; applications that
+/// assemble policies from data do).
+pub fn ast_policy(s: &str) -> Option<cosmian_cover_crypt::AccessPolicy> {
+    use cosmian_cover_crypt::{AccessPolicy, QualifiedAttribute};
+    fn go(t: &[&str], p: &mut usize) -> Option<AccessPolicy> {
+        let k = *t.get(*p)?; *p += 1;
+        match k {
+            "B" => Some(AccessPolicy::Broadcast),
+            "T" => { let d = String::from_utf8(unhex(t.get(*p)?)).ok()?; let n = String::from_utf8(unhex(t.get(*p + 1)?)).ok()?; *p += 2;
+                Some(AccessPolicy::Term(QualifiedAttribute::new(&d, &n))) }
+            "A" => { let l = go(t, p)?; let r = go(t, p)?; Some(AccessPolicy::Conjunction(Box::new(l), Box::new(r))) }
+            "O" => { let l = go(t, p)?; let r = go(t, p)?; Some(AccessPolicy::Disjunction(Box::new(l), Box::new(r))) }
+            _ => None,
+        }
+    }
+    let t: Vec<&str> = s.strip_prefix('@')?.split(',').collect();
+    let mut p = 0; let r = go(&t, &mut p)?;
+    if p == t.len() { Some(r) } else { None }
+}
+
 pub const SK: usize = 32;
 #[cfg(feature = "cfg-alt")]
 pub const PT: usize = 33;
